@@ -109,11 +109,13 @@ def run(ctx):
     if len(kp) != 1:
         raise AnalysisBroken('C15-digits: the two-digit field parser of time_zone_fixed.cc not found')
     worst, sites = digit_count(ctx, kp[0])
-    ctx.check(worst is not None and worst >= 2, 'C15-digits', 'Parse02d yields a value only after two characters are established as digits',
+    looped = any(y.get('kind') in ('ForStmt', 'WhileStmt', 'DoStmt', 'CXXForRangeStmt') for y in walk(G.defs[kp[0]][1]))
+    ctx.check3(None if (looped and not (worst is not None and worst >= 2)) else (worst is not None and worst >= 2), 'C15-digits', 'Parse02d yields a value only after two characters are established as digits',
               sites[0] if sites else G.defs[kp[0]][1],
               'Parse02d can return a non-negative value on a path where fewer than two characters have been established as '
               'decimal digits (%s): strings that are not of the shape +hh:mm:ss are taken for fixed-offset names' % worst,
-              construct='digits:Parse02d', detail='at least %s digit tests before every accepting return' % worst)
+              construct='digits:Parse02d', detail='at least %s digit tests before every accepting return' % worst,
+              unknown_why='the two digit tests are made in a loop: the per-path count of established digits does not follow loops')
     ctx.minimum('C15-digits', 1)
 
     # ---- C15-shape / C15-bound
